@@ -34,6 +34,53 @@ fn imm_alphabet() -> Vec<i32> {
     v
 }
 
+/// A canonical instance of the opcode (fields the assembler can express, non-negative immediate).
+pub fn twin_bases(opc: u8, k: Kind) -> Vec<Vec<I>> {
+    if matches!(k, Kind::LdDw) {
+        return vec![vec![I::new(opc, 3, 0, 0, 0x44332211), I::new(0, 0, 0, 0, 0x08776655)]];
+    }
+    let (ud, us, uo, ui) = isa::uses(k);
+    let imm = if matches!(k, Kind::End { .. }) { 32 } else if ui { 0x1234 } else { 0 };
+    vec![vec![I::new(opc, if ud { 3 } else { 0 }, if matches!(k, Kind::Call) { 1 } else if us { 4 } else { 0 }, if uo { 5 } else { 0 }, imm)]]
+}
+
+/// The base itself and every variant that differs from it in exactly one used field.
+pub fn twin_variants(base: &[I], k: Kind) -> Vec<Vec<I>> {
+    let mut v = vec![base.to_vec()];
+    let b = base[0];
+    if matches!(k, Kind::LdDw) {
+        let hi = base[1];
+        v.push(vec![I { dst: 4, ..b }, hi]);
+        v.push(vec![I { imm: 0x44332212, ..b }, hi]);
+        v.push(vec![b, I { imm: 0x08776656, ..hi }]);
+        v.push(vec![b, I { imm: 0, ..hi }]);
+        v.push(vec![b, I { imm: -1, ..hi }]);
+        return v;
+    }
+    let (ud, us, uo, ui) = isa::uses(k);
+    if ud {
+        v.push(vec![I { dst: 5, ..b }]);
+    }
+    if us && !matches!(k, Kind::Call) {
+        v.push(vec![I { src: 6, ..b }]);
+    }
+    if matches!(k, Kind::Call) {
+        v.push(vec![I { src: 0, ..b }]);
+    }
+    if uo {
+        v.push(vec![I { off: 6, ..b }]);
+        v.push(vec![I { off: -5, ..b }]);
+    }
+    if matches!(k, Kind::End { .. }) {
+        v.push(vec![I { imm: 16, ..b }]);
+        v.push(vec![I { imm: 64, ..b }]);
+    } else if ui {
+        v.push(vec![I { imm: 0x1235, ..b }]);
+        v.push(vec![I { imm: 0x7fff1234, ..b }]);
+    }
+    v
+}
+
 /// Every skeleton of `n` slots whose first slot is `first` (see isaeng layer 3).
 pub fn skeletons_from(n: usize, first: crate::isaeng::Slot, f: &mut dyn FnMut(&[crate::isaeng::Slot])) {
     fn rec(n: usize, cur: &mut Vec<crate::isaeng::Slot>, f: &mut dyn FnMut(&[crate::isaeng::Slot])) {
@@ -923,6 +970,28 @@ pub fn run_c15(s: &mut Sink) {
         }
         s.done(&format!("control-flow skeletons of 1..={nmax} slots (jumps, local calls and wide loads in every relative position)"));
     }
+    // twins (see C16): equal instructions and instructions differing in one field in one program
+    {
+        let idx = g;
+        g += 1;
+        if s.take(idx) {
+            let mut n = 0u64;
+            for &opc in &ops {
+                let k = isa::kind(opc).unwrap();
+                for base in twin_bases(opc, k) {
+                    for other in twin_variants(&base, k) {
+                        let mut p = base.clone();
+                        p.extend(other.iter());
+                        p.extend(base.iter());
+                        n += c15_check_prog(s, &p, "twins");
+                    }
+                }
+            }
+            s.count("evaluations", n);
+            s.count("distinct_nontrivial", n);
+            s.done("twins: every opcode, triples of instructions equal or differing in one field");
+        }
+    }
     // full 2^32 immediates for one opcode per renderer shape (thorough)
     if thorough {
         let shapes: [u8; 8] = [0x07, 0x20, 0x40, 0x62, 0x15, 0x85, 0xd4, 0x16];
@@ -1573,6 +1642,16 @@ pub fn run_c14(s: &mut Sink) {
                 c14_check(s, &format!("lddw r1, -{}", toks[a].0), &format!("tokens:neg-operand-{}", toks[a].1));
                 c14_check(s, &format!("ja +{}", toks[a].0), &format!("tokens:plus-operand-{}", toks[a].1));
                 n += 6;
+                // operand lists of every length 0..=12 made of this token, after each mnemonic kind
+                for mn in ["add", "exit", "call", "lddw", "ldxw", "jeq", "nosuchinsn"] {
+                    for k in 0..=12usize {
+                        for sep in [", ", ","] {
+                            let ops: Vec<&str> = std::iter::repeat(toks[a].0.as_str()).take(k).collect();
+                            c14_check(s, &format!("{mn} {}", ops.join(sep)), &format!("tokens:{k}-operands-{}", toks[a].1));
+                            n += 1;
+                        }
+                    }
+                }
             }
             let prefix = format!("{}{}", toks[a].0, toks[b].0);
             c14_check(s, &prefix, &class);
@@ -1921,6 +2000,34 @@ pub fn run_c16(s: &mut Sink) {
         s.count("distinct_nontrivial", n);
     }
     s.done("sequences of 2 and 3 instructions");
+    // twins: the same instruction twice, and pairs that differ in exactly one field (for lddw also
+    // in only the low or only the high half) - programs in which a per-program cache would hit
+    for &opc in &ops {
+        let k = isa::kind(opc).unwrap();
+        let idx = g;
+        g += 1;
+        if !s.take(idx) {
+            continue;
+        }
+        let mut n = 0u64;
+        for base in twin_bases(opc, k) {
+            for other in twin_variants(&base, k) {
+                for order in 0..3 {
+                    let mut p: Vec<I> = vec![];
+                    match order {
+                        0 => { p.extend(base.iter()); p.extend(other.iter()); }
+                        1 => { p.extend(other.iter()); p.extend(base.iter()); }
+                        _ => { p.extend(base.iter()); p.extend(other.iter()); p.extend(base.iter()); }
+                    }
+                    c16_check(s, &p, "twins");
+                    n += 1;
+                }
+            }
+        }
+        s.count("evaluations", n);
+        s.count("distinct_nontrivial", n);
+    }
+    s.done("twins: every opcode, pairs and triples of instructions equal or differing in one field");
 }
 
 pub fn replay_roundtrip(v: &Value) -> Vec<String> {
